@@ -210,3 +210,74 @@ def normalisation_is_idempotent(scale: float, batch_size: int) -> bool:
             and set(c1.keys()) == set(c2.keys()) and c2.model_config.head_configs.bottomup is not None
             and c2.model_config.head_configs.bottomup.confmaps.sigma == c1.model_config.head_configs.bottomup.confmaps.sigma
             and c2.trainer_config.val_data_loader.batch_size == c1.trainer_config.val_data_loader.batch_size)
+
+
+BACKBONE_PRESETS = ("unet", "unet_medium_rf", "unet_large_rf", "convnext", "convnext_tiny", "convnext_small", "convnext_base", "convnext_large",
+                    "swint", "swint_tiny", "swint_small", "swint_base")
+HEAD_PRESETS = ("single_instance", "centered_instance", "centroid", "bottomup")
+
+
+def _snapshot(obj):
+    import attrs
+    return attrs.asdict(obj, recurse=True)
+
+
+def _edit_all(obj, delta):
+    """edit every scalar leaf of an attrs configuration object in place (validators may refuse some edits: those leaves stay)"""
+    import attrs
+    n = 0
+    for f in attrs.fields(type(obj)):
+        v = getattr(obj, f.name)
+        if attrs.has(type(v)):
+            n += _edit_all(v, delta)
+            continue
+        if isinstance(v, bool):
+            nv = not v
+        elif isinstance(v, int):
+            nv = v + delta
+        elif isinstance(v, float):
+            nv = v + delta
+        elif isinstance(v, str):
+            nv = v + "~"
+        else:
+            continue
+        try:
+            type(obj).__setattr__(obj, f.name, nv)  # not builtins.setattr: CrossHair runs that one untraced
+            n += 1
+        except Exception:  # noqa  a validator refused the edited value
+            pass
+    return n
+
+
+def _fresh(build, delta):
+    o1 = build()
+    snap = _snapshot(o1)
+    edited = _edit_all(o1, delta)
+    return edited > 0 and _snapshot(build()) == snap
+
+
+# every unspecified option gets the schema default ON EVERY CALL: editing the object a builder returned must not leak into the next
+# call with the same arguments (preset objects, default sub-configurations and lists must be fresh)
+def backbone_presets_do_not_share_state(bi: int, delta: int) -> bool:
+    """
+    pre: 0 <= bi < 12 and 1 <= delta <= 64
+    post: _
+    """
+    T = _builders()
+    return _fresh(lambda: T.get_backbone_config(BACKBONE_PRESETS[bi]), delta)
+
+
+def head_presets_do_not_share_state(hi: int, delta: int) -> bool:
+    """
+    pre: 0 <= hi < 4 and 1 <= delta <= 64
+    post: _
+    """
+    T = _builders()
+    return _fresh(lambda: T.get_head_configs(HEAD_PRESETS[hi]), delta)
+
+
+def defaults_do_not_share_state(delta: int) -> bool:
+    """concrete companion (run by the 'concrete' configuration, not by CrossHair: the attrs validators fork on every edited leaf)"""
+    T = _builders()
+    return (_fresh(lambda: T.get_data_config(train_labels_path="a.slp", val_labels_path="b.slp"), delta) and _fresh(lambda: T.get_trainer_config(), delta)
+            and _fresh(lambda: T.get_model_config(backbone_config="unet", head_configs="centroid"), delta))
